@@ -158,6 +158,45 @@ def run_case(a):
         gb.cleanup()
 
 
+EXOTIC_TARGETS = ["Date", "bigint", "Uint8Array", "unknown", "Record<string, unknown>", "number[]"]
+
+
+def run_exotic_case(a):
+    """mapping targets other than string / number / boolean: the target is TypeScript text supplied by the user. It must appear as
+    written (never namespace-qualified: types.ts does not export it), N must disappear, and every file must still parse"""
+    cli, name, target, mode = a
+    types = list(enumerate(positions(name)[:14]))
+    files = build(types)
+    g = proj.generate(cli, files, mode=mode, config={"type_mappings": {name: target}}, tag="c18x")
+    try:
+        if g.run.timed_out:
+            return {"inconclusive": "watchdog"}
+        if g.run.rc != 0:
+            return {"blocked": "rc=%s" % g.run.rc}
+        out = g.output
+        viol = []
+        for e in out.errors()[:1]:
+            viol.append(("C18 exotic-target output-does-not-parse file=%s" % e["file"], "%s -> %s (%s mode): %s:%d %s | %s" % (name, target, mode, e["file"], e["line"], e["msg"], e["text"])))
+        head = tsparse.lex(target)[0][0].v
+        for f, text in out.texts.items():
+            toks, _ = tsparse.lex(text)
+            vals = [t.v for t in toks]
+            for i in range(len(vals) - 2):
+                if vals[i] == "types" and vals[i + 1] == "." and vals[i + 2] == head:
+                    viol.append(("C18 mapped-target-namespace-qualified file=%s" % f, "%s -> %s (%s mode): %s refers to types.%s, which types.ts does not export" % (name, target, mode, f, head)))
+                    break
+            left = {t.v for t in toks if t.k == "id"} & {name.split("<")[0], name.split("<")[0] + "Schema"}
+            if left:
+                viol.append(("C18 mapped-name-still-present file=%s mode=%s" % (f, mode), "%s still mentions %s although mapped to %s" % (f, sorted(left), target)))
+        if mode == "none" and head not in ("unknown",):
+            present = sum(1 for f, text in out.texts.items() if head in {t.v for t in tsparse.lex(text)[0]})
+            if present == 0:
+                viol.append(("C18 exotic-target-never-rendered", "%s -> %s: the target does not occur in any generated file" % (name, target)))
+        return {"viol": viol, "n": len(types), "files": files}
+    finally:
+        g.cleanup()
+
+
 def run(tier):
     v = Verdict("C18", "exploration", tier)
     cli = common.build_cli()
@@ -224,6 +263,18 @@ def run(tier):
             if defined:
                 v.count("violations_in_projects_defining_the_mapped_names")
             v.violation(sig, what, wit)
+    xjobs = [(cli, name, target, mode) for name in ("PathBuf", "Uuid") for target in EXOTIC_TARGETS for mode in ("none", "zod")]
+    for (job, r) in zip(xjobs, common.pmap(run_exotic_case, xjobs)):
+        if "inconclusive" in r:
+            v.inconclusive.append("watchdog")
+            continue
+        v.case(("exotic-target", job[1], job[2], job[3]), nontrivial=True)
+        if "blocked" in r:
+            v.blocked += 1
+            continue
+        v.count("exotic_target_projects")
+        for (sig, what) in r["viol"]:
+            v.violation(sig, what, proj.witness_of(r["files"], job[3], config={"type_mappings": {job[1]: job[2]}}))
     v.extra["mapping_tables"] = len(tables)
     rule = ("a case is (mapping table, mode, type expression holding a mapped name at some constructor position), placed at the five sites of one "
             "project that also contains unrelated and near-miss-named declarations; each project is generated with and without the table; "
